@@ -347,11 +347,12 @@ def dump_one(f: TextIO, data: IOData):
     # BASIS
     f.write("$BASIS\n")
     iatom_last = 0
-    for shell in data.obasis.shells:
+    # The format identifies the center of a shell by counting separators, so the shells must
+    # be sorted by center and every center, also one without shells, gets its separator.
+    for shell in sorted(data.obasis.shells, key=(lambda s: s.icenter)):
         if shell.ncon != 1:
             raise RuntimeError("Generalized contractions not supported. Call prepare_dump first.")
-        iatom_new = shell.icenter
-        if iatom_new != iatom_last:
+        for _ in range(shell.icenter - iatom_last):
             f.write("$$\n")
         angmom = shell.angmoms[0]
         kind = shell.kinds[0]
@@ -399,6 +400,13 @@ def dump_one(f: TextIO, data: IOData):
 # Defining help dumping functions
 def _dump_helper_coeffs(f, data, spin=None):
     permutation, signs = convert_conventions(data.obasis, CONVENTIONS)
+    # The basis functions follow the shells, which are written sorted by center.
+    shells = data.obasis.shells
+    shell_order = sorted(range(len(shells)), key=(lambda i: shells[i].icenter))
+    offsets = np.cumsum([0] + [shell.nbasis for shell in shells])
+    shell_perm = np.concatenate([np.arange(offsets[i], offsets[i + 1]) for i in shell_order])
+    permutation = permutation[shell_perm]
+    signs = signs[shell_perm]
     if spin == "a":
         norb = data.mo.norba
         coeff = data.mo.coeffsa[permutation] * signs.reshape(-1, 1)
